@@ -297,7 +297,10 @@ def rule_d(ctx: Ctx) -> None:
             for e in n.exprs:
                 for c in calls(e):
                     fn = text(c.func)
-                    if fn not in ({'self.patterns', 'patterns', 'self.to_python'} | each) or not c.args:
+                    # the restriction hands the value on to its base type: that value is the normalised one too (the stronger whiteSpace
+                    # facet of the restriction must reach the base decoder, the facet validators and the result)
+                    hand_on = cname == 'XsdAtomicRestriction' and fn == 'base_type.raw_decode'
+                    if (fn not in ({'self.patterns', 'patterns', 'self.to_python'} | each) and not hand_on) or not c.args:
                         continue
                     sites += 1
                     a = c.args[0]
